@@ -32,7 +32,8 @@ static void l0_havoc_sets(void) {
 #ifdef HAVE_pair_pE_b
   g_as[0] = nondet_aset(); g_as[1] = nondet_aset(); g_as_nctor = 0; g_as_ndtor = 0; pre_as0_n = nondet_u64(); pre_as1_n = nondet_u64(); pre_as0_has = nondet_bool(); pre_as1_has = nondet_bool();
   __CPROVER_assume(g_as[0].n < (1UL << 16) && g_as[1].n < (1UL << 16));
-#endif pre_ncmp = nondet_u64();
+#endif
+  pre_ncmp = nondet_u64();
 }
 #endif
 
